@@ -5,6 +5,7 @@ mod diag;
 mod gap;
 mod phyrx;
 mod prm;
+mod station;
 mod util;
 
 use std::io::{BufRead, Write};
@@ -28,6 +29,7 @@ fn engine(name: &str) -> Option<(fn(&mut Vec<String>, u64, bool), Box<dyn Execut
         "decoder" => Some((decoder::gen, Box::new(Stateless(decoder::exec)))),
         "diag" => Some((diag::gen, Box::new(diag::Exec::default()))),
         "gap" => Some((gap::gen, Box::new(Stateless(gap::exec)))),
+        "station" => Some((station::gen, Box::new(station::Exec::new()))),
         "prm" => Some((prm::gen, Box::new(prm::PrmExec::new()))),
         "phyrx" => Some((phyrx::gen, Box::new(phyrx::Exec::new()))),
         _ => None,
